@@ -209,8 +209,41 @@ def run(ctx):
     ctx.ob('C20-CHECK.zero-rows-updated-raises', su, rc[0].stmt if rc else su.node, ok,
            '' if ok else 'an UPDATE that matched no row in an optimistic session does not raise OptimisticCheckError on every path')
 
+    # ---------------------------------------------------------------- EXCLUDED
+    # "unless the attribute is excluded from optimistic checks": besides the two options a user can write (optimistic=False, volatile=True) the only
+    # source of an exclusion is the converter's class-level `optimistic` flag.  The set of converter classes that say False is a closed table with a
+    # reason each; no other class sets the flag to False, and none computes it per instance (an attribute would drop out of the check silently).
+    NON_OPTIMISTIC = {'RealConverter': 'float columns: the value read back differs from the value sent in the last bits on some databases, `col = ?` would never match',
+                      'OraJsonConverter': 'CLOBs cannot be compared with strings in Oracle'}
+    nconv = 0
+    base = repo.cls('pony.orm.dbapiprovider', 'Converter')
+    for cls_ in [base] + list(repo.subclasses(base, strict=True)):
+        nconv += 1
+        v = cls_.attrs.get('optimistic')
+        if v is not None:
+            is_false = isinstance(v, ast.Constant) and v.value is False
+            is_true = isinstance(v, ast.Constant) and v.value is True
+            ok = is_true or (is_false and cls_.name in NON_OPTIMISTIC)
+            if is_false and cls_.name in NON_OPTIMISTIC: ctx.exception('C20-EXCLUDED', cls_.name, NON_OPTIMISTIC[cls_.name])
+            ctx.ob('C20-EXCLUDED.converter-level-exclusions-are-the-listed-ones', '%s::%s' % (cls_.mod.rel, cls_.qual), '%s.optimistic = %s' % (cls_.name, norm(v)), ok,
+                   '' if ok else 'converter class %s sets optimistic = %s: attributes of that type silently drop out of the optimistic check although the user excluded nothing'
+                   % (cls_.name, norm(v)), node=v)
+        for m_ in cls_.methods.values():
+            for st in ast.walk(m_.node):
+                if isinstance(st, (ast.Assign, ast.AugAssign)):
+                    tg = st.targets if isinstance(st, ast.Assign) else [st.target]
+                    for t in tg:
+                        for t_ in ast.walk(t):
+                            if isinstance(t_, ast.Attribute) and t_.attr == 'optimistic' and isinstance(t_.ctx, ast.Store):
+                                ctx.ob('C20-EXCLUDED.converter-level-exclusions-are-the-listed-ones', m_, st, False,
+                                       '%s.%s assigns `%s`: the exclusion of an attribute from the optimistic check is computed per converter instance; an attribute '
+                                       'the user did not exclude can drop out of the check (e.g. every FloatArray)' % (cls_.name, m_.name, norm(st)[:70]), node=st)
+    ctx.floor('C20-EXCLUDED', nconv, 20, 'converter classes examined')
+
 
 MUTANTS = [
+    dict(id='C20-excl1', file='pony/orm/dbapiprovider.py', fn='ArrayConverter.__init__', old="        converter.item_converter = converter.array_types[converter.py_type.item_type][1]", new="        converter.item_converter = item_converter = converter.array_types[converter.py_type.item_type][1]\n        converter.optimistic = item_converter.optimistic", expect='C20-EXCLUDED'),
+    dict(id='C20-excl2', file='pony/orm/dbapiprovider.py', fn=None, old="class JsonConverter(Converter):\n", new="class JsonConverter(Converter):\n    optimistic = False\n", expect='C20-EXCLUDED'),
     dict(id='C20-o1', file='pony/orm/core.py', fn='EntityMeta._set_rbits', old="rbits = builtins.sum(obj._bits_except_volatile_.get(attr, 0) for attr in attrs)", new="rbits = builtins.sum(entity._bits_except_volatile_.get(attr, 0) for attr in attrs)", expect='C20-OWNBITS'),
     dict(id='C20-m1', file='pony/orm/core.py', fn='Attribute.__get__', old='if wbits is not None and not wbits & bit: obj._rbits_ |= bit', new='if wbits is not None and not (wbits and bit): obj._rbits_ |= bit', expect='C20-READ'),
     dict(id='C20-m2', file='pony/orm/core.py', fn='Attribute.__get__', old='bit = obj._bits_except_volatile_[attr]', new='bit = obj._bits_[attr]', expect='C20-READ'),
